@@ -18,34 +18,41 @@ Print Assumptions C12_index_iter.
 
 (* any set of page reads turned into failures (I/O error, short read):
    the rows seen are the fault-free rows, or a prefix of them and an error *)
-Theorem C12_table_rows : forall pg' pg U npages, (forall n, le_res (pg' n) (pg n)) ->
-  forall root, flat_le (table_rows pg' U npages root) (table_rows pg U npages root).
+Theorem C12_table_rows : forall pg' pg op' op npages, (forall n, le_res (pg' n) (pg n)) -> (forall n, le_res (op' n) (op n)) ->
+  forall root, flat_le (table_rows pg' op' npages root) (table_rows pg op npages root).
 Proof. exact table_rows_fault. Qed.
 Print Assumptions C12_table_rows.
 
-Theorem C12_index_rows : forall pg' pg U npages, (forall n, le_res (pg' n) (pg n)) ->
-  forall root, flat_le (index_rows pg' U npages root) (index_rows pg U npages root).
+Theorem C12_index_rows : forall pg' pg op' op npages, (forall n, le_res (pg' n) (pg n)) -> (forall n, le_res (op' n) (op n)) ->
+  forall root, flat_le (index_rows pg' op' npages root) (index_rows pg op npages root).
 Proof. exact index_rows_fault. Qed.
 Print Assumptions C12_index_rows.
 
 (* hence for the scans: same result as without faults, or an error after a
    correct prefix (the collected rows are kept newest first) *)
-Theorem C12_table_scan : forall pg' pg U npages, (forall n, le_res (pg' n) (pg n)) -> forall root,
-  let run p := table_scan p U npages _ root (fun k r s => stop_after None (k, r) s) [] in
-  run pg' = run pg \/
-  exists e rest, fst (run pg') = Fail e /\ snd (run pg) = rest ++ snd (run pg').
+Theorem C12_table_scan : forall pg' pg op' op npages, (forall n, le_res (pg' n) (pg n)) -> (forall n, le_res (op' n) (op n)) -> forall root,
+  let run p := table_scan (fst p) (snd p) npages _ root (fun k r s => stop_after None (k, r) s) [] in
+  run (pg', op') = run (pg, op) \/
+  exists e rest, fst (run (pg', op')) = Fail e /\ snd (run (pg, op)) = rest ++ snd (run (pg', op')).
 Proof. exact table_scan_fault. Qed.
 Print Assumptions C12_table_scan.
 
-Theorem C12_index_scan : forall pg' pg U npages, (forall n, le_res (pg' n) (pg n)) -> forall root,
-  let run p := index_scan p U npages _ root (stop_after None) [] in
-  run pg' = run pg \/
-  exists e rest, fst (run pg') = Fail e /\ snd (run pg) = rest ++ snd (run pg').
+Theorem C12_index_scan : forall pg' pg op' op npages, (forall n, le_res (pg' n) (pg n)) -> (forall n, le_res (op' n) (op n)) -> forall root,
+  let run p := index_scan (fst p) (snd p) npages _ root (stop_after None) [] in
+  run (pg', op') = run (pg, op) \/
+  exists e rest, fst (run (pg', op')) = Fail e /\ snd (run (pg, op)) = rest ++ snd (run (pg', op')).
 Proof. exact index_scan_fault. Qed.
 Print Assumptions C12_index_scan.
 
-Theorem C12_scan_err : forall pg U npages root l e,
-  table_rows pg U npages root = (l, Some e) ->
-  table_scan pg U npages _ root (tcollect None) [] = (Fail e, rev l).
+Theorem C12_scan_err : forall pg op npages root l e,
+  table_rows pg op npages root = (l, Some e) ->
+  table_scan pg op npages _ root (tcollect None) [] = (Fail e, rev l).
 Proof. exact table_scan_err. Qed.
 Print Assumptions C12_scan_err.
+
+(* the page store of a pager inherits the pager's failures, so the above
+   applies to every pair of pagers that differ only by failing reads *)
+Theorem C12_store : forall pg' pg U, (forall n, le_res (pg' n) (pg n)) ->
+  forall n, le_res (openp pg' U n) (openp pg U n).
+Proof. exact openp_of_le. Qed.
+Print Assumptions C12_store.
